@@ -45,6 +45,8 @@ def phase_linestep(res, seed, n):
     # the prediction is claimed for the alignment the generator intends: the real diff must choose it (almost) always
     good = res.tags.get("alignment:as-intended", 0) - before.get("alignment:as-intended", 0)
     other = res.tags.get("alignment:other", 0) - before.get("alignment:other", 0)
+    # (cases outside the claim — text appended after an unterminated last line, blank unterminated insert — are
+    #  tagged alignment:not-claimed by the suite and do not count)
     ok = good > 0 and other * 50 <= good
     res.obligation("linestep generator: the real line diff chooses the intended alignment in >= 98% of the cases", ok, "distribution")
     if not ok:
@@ -70,7 +72,9 @@ def run(tier, seed):
                 "lines with per-line authors (human / 3 AI sessions, single-line entries or INITIAL-like runs), lines kept / deleted / "
                 "freshly inserted without reordering (identity, append, replace-all, mixed; replace hunks; blank and whitespace-only "
                 "lines; LF/CRLF/mixed; multi-byte tokens), every line with content and at least one token no other line has, so the "
-                "real line diff has one minimal alignment; per case the real per-line authors (real diff, and the real transform on "
+                "real line diff has one minimal alignment; in a third of the cases the previous and/or the current content has no final "
+                "newline (LineStep.lineStepE; oracle eof_line_rule with its own signature; the shapes eofPlain excludes are compared on the "
+                "model's segments only); per case the real per-line authors (real diff, and the real transform on "
                 "line-granular segments) are compared with Lean LineStep.lineStep and with Sys.checkpointAttr on the induced ids")
     res.trusted = ["Lean 4.33 kernel (axioms: propext, Quot.sound, Classical.choice only)",
                    "harness/src/suites/c16.rs generators, contract checks, oracles and canonicalisation",
